@@ -95,6 +95,7 @@ def register(reg, ctx):
     # ------------------------------------------------------------------ container mutators and scene-graph hooks always notify
     # (the dependents' caches are keyed on nothing: ANY replacement of a species / model, also of one with the same key, must be announced)
     register_notifying_mutators(reg, PROP)
+    register_lineshape_rebuild(reg, PROP)
     # ------------------------------------------------------------------ _change resets the guards of the caches
     for file, cls, guard, empty in GUARDS:
         reg.contract(file, cls + "._change", PROP, name='guard', ensures=[("guard_emptied", empty)])
@@ -103,6 +104,22 @@ def register(reg, ctx):
 NOTIFYING = [(PN, "Composition.set"), (PN, "Composition.add"), (PN, "Composition.clear"),
              (PN, "ModelManager.set"), (PN, "ModelManager.add"), (PN, "ModelManager.clear"),
              (BN, "ModelManager.set"), (BN, "ModelManager.add"), (BN, "ModelManager.clear"), (BN, "Beam._modified")]
+
+
+def register_lineshape_rebuild(reg, prop):
+    """Every cache rebuild of the beam CX model constructs a NEW line-shape object from the CURRENT line, wavelength, receiver species,
+    plasma and atomic data (the line shape holds the Species object: re-using an old one keeps the Doppler width of a replaced species)."""
+    CXF = "cherab/core/model/beam/charge_exchange.pyx"
+    anchor = ('self._lineshape = self._lineshape_class(self._line, self._wavelength, self._target_species, self._plasma, self._atomic_data, '
+              '*self._lineshape_args, **self._lineshape_kwargs)')
+    from .common import call_cases
+    reg.contract(CXF, "BeamCXLine._populate_cache", prop, name='lineshape', flags={'stmts_from': anchor},
+        ensures=[("lineshape_args", call_cases(['construct'], [("True", [('construct', [
+                     "self._line", "self._wavelength", "self._target_species", "self._plasma", "self._atomic_data"])])])),
+                 ("lineshape_class", lambda P: [("lineshape_class", as_bool(P.eng.identical(
+                     P.calls('construct')[0].recv, P.value("self._lineshape_class"))) if P.calls('construct') else z3.BoolVal(False))]),
+                 ("lineshape_stored", lambda P: [("lineshape_stored", (P.value("self._lineshape").ref == P.calls('construct')[-1].result.ref)
+                                                  if P.calls('construct') else z3.BoolVal(False))])])
 
 
 def register_notifying_mutators(reg, prop):
@@ -278,6 +295,41 @@ print(json.dumps({"density_after_move": d1, "density_fresh_beam": d2, "equal": a
         return {'confirmed': bool(out) and (out.get('equal') is False or bool(out.get('step_setter_error'))), 'observed': out,
                 'input': 'beam moved from x=0.3 to x=1.8 after density(); then attenuator.step = 0.005',
                 'expected': 'density equals that of a beam built at the final position; step setter accepted'}
+    if 'BeamCXLine._populate_cache' in name:
+        # observe once, replace the receiver species by a new Species with the same element and charge but a hotter, moving distribution,
+        # observe again; compared with the same model in a scene where it never saw the old species
+        code = scene + '''
+from raysect.optical import Spectrum, Point3D
+from cherab.core import Species, Maxwellian
+from scipy.constants import atomic_mass
+class _CX1(BeamCXPEC):
+    def __init__(self): super().__init__(1)
+    def evaluate(self, *a): return 1e-14
+class Data3(Data):
+    def beam_cx_pec(self, donor_ion, receiver_ion, receiver_charge, transition): return [_CX1()]
+    def wavelength(self, ion, charge, transition): return 656.1
+d_ = Data3(); plasma.atomic_data = d_; beam.atomic_data = d_
+beam.models = [BeamCXLine(Line(elements.hydrogen, 0, (3, 2)))]
+m = list(beam.models)[0]
+def spec(model):
+    s = Spectrum(650., 662., 400); model.emission(Point3D(0.0, 0.0, 3.0), Point3D(0.6, 0.0, 1.0), Vector3D(0, 0, 1), Vector3D(0.3, 0.1, 1).normalise(), s)
+    return s.samples.copy()
+first = spec(m)
+old = plasma.composition.get(elements.deuterium, 1) if False else None
+sp = [s_ for s_ in plasma.composition if s_.charge >= 1][0]
+hot = Species(sp.element, sp.charge, Maxwellian(sp.distribution.density(0, 0, 0) if False else 4e19, 1500.0, Vector3D(-1.5e5, 0, 0), sp.element.atomic_weight * atomic_mass))
+plasma.composition.add(hot)
+second = spec(m)
+beam.models = [BeamCXLine(Line(elements.hydrogen, 0, (3, 2)))]
+fresh = spec(list(beam.models)[0])
+import numpy as np
+rel = float(np.abs(second - fresh).max() / max(fresh.max(), 1e-300))
+print(json.dumps({"max_relative_deviation_from_fresh_model": rel, "equal": rel <= 1e-9, "peak_first": float(first.max()), "peak_second": float(second.max()), "peak_fresh": float(fresh.max())}))
+'''
+        out = run_native(ctx, code)
+        return {'confirmed': bool(out) and out.get('equal') is False, 'observed': out,
+                'input': 'BeamCXLine.emission(); plasma.composition.add(<same element and charge, 1500 eV, moving>); BeamCXLine.emission()',
+                'expected': 'same spectrum as a model attached after the replacement'}
     if '[registration]' in name or 'registration/' in name or ('BeamAttenuator' in name and '_change' in name):
         # history: attenuator A, swap to B, swap back to A, observe, then change beam settings - compared with a beam built from scratch
         code = scene + '''
